@@ -764,7 +764,7 @@ struct mkey {
 	uint8_t src;
 };
 
-#define MAXK 2000
+#define MAXK 4096
 static struct mkey K[MAXK];
 static int KN;
 static struct mkey KCB[MAXK];
@@ -1025,9 +1025,13 @@ static void run_spki_case(struct rng *r, long c)
 				saw_stage++;
 			phase = saw_stage % 2;
 			p_add = phase == 0 ? 92 : 4;
+			if (saw_stage >= 4 && KN >= target)
+				p_add = 45; /* profile finished: hover */
 		}
 		const char *opn;
 
+		if (KN >= MAXK - 64)
+			p_add = 0; /* the model array is bounded */
 		if (KN == 0 || (int)k < p_add) {
 			gen_key(r, &m, variety);
 			if (KN && rndp(r, 1, 10))
